@@ -77,7 +77,8 @@ pub struct Exec {
 pub const STEP_CAP: usize = 20_000;
 
 /// Schedule alternatives `DEMOTE_BASE + k` mean: demote the k-th enabled task at this step (it is not run again until
-/// no other task is enabled and no user/fault action is left to issue), then continue with the default choice. This is
+/// no other task is enabled and no user/fault action is left to issue, or until virtual time is about to pass), then
+/// continue with the default choice. This is
 /// the CHESS notion of a preemption (the preempted thread stays descheduled until the others block) — one deviation
 /// that delays a task for a long time, where an ordinary deviation delays it by one position.
 pub const DEMOTE_BASE: usize = 1000;
@@ -146,6 +147,7 @@ fn run_one_here<S: Scenario>(scn: &S, schedule: &[(usize, usize)], seed: u64) ->
                     en.retain(|t| !demoted.contains(t));
                     if en.is_empty() && lazy == 0 {
                         // everybody else is blocked and the user has nothing left to issue: the demoted tasks run again
+                        // (before any clock step; see also the drain before a `Wait` below)
                         demoted.clear();
                         en = w.driver.enabled_fifo();
                     }
@@ -198,6 +200,27 @@ fn run_one_here<S: Scenario>(scn: &S, schedule: &[(usize, usize)], seed: u64) ->
                 } else if pick < en.len() + lazy {
                     scn.lazy_apply(&mut st, &mut w, pick - en.len());
                     if let Some(d) = scn.lazy_wait(&st) {
+                        // virtual time passes only over a quiescent system: a `Wait` issued early (deviation) or while
+                        // a task is demoted first lets every runnable task run (default order). Computation is
+                        // instantaneous at the granularity of the timers involved (seconds); no scheduler starves a
+                        // runnable task for that long.
+                        demoted.clear();
+                        let mut drained = 0usize;
+                        loop {
+                            w.pump_net();
+                            let en = w.driver.enabled_fifo();
+                            if en.is_empty() || drained >= STEP_CAP {
+                                break;
+                            }
+                            w.driver.step(en[0]);
+                            drained += 1;
+                            for v in scn.monitor(&mut st, &w) {
+                                ex.viols.push((v.signature, v.what));
+                            }
+                        }
+                        if drained >= STEP_CAP {
+                            ex.cap_hit = true;
+                        }
                         tokio::time::advance(d).await;
                         scn.on_tick(&mut st, d);
                     }
